@@ -85,7 +85,7 @@ def run_D(rs, ctx):
     cpu = mp.cpu_count()
     for n_jobs in [j for j in range(-4, 71) if j != 0]:
         imp = _EpsilonGreedy(create_rng(1), [1, 2], n_jobs, None, 0.0)
-        for n in range(1, 65):
+        for n in list(range(1, 65)) + [100, 257, 1000, 4097, 32768, 32769, 65537, 100003, 1048577]:
             ctx.ev()
             ctx.count("partition_fn_checks")
             k, sizes, starts = imp._partition_contexts(n)
